@@ -48,7 +48,7 @@ def oracle(case, impl_line):
     if p is None:
         return None
     b, with_, without = p
-    g = case.split()[4]
+    g = case.split()[6]
     if not verdict(b):
         bad = [r for r in reqs_of(with_) if r.startswith(GUARDED)]
         if bad:
@@ -64,7 +64,7 @@ def model_line(case, impl_line):
     p = parse_impl(impl_line)
     f = case.split()
     b = p[0] if p else (False, False, False, False)
-    return "c10m %d %d %d %d %s %s %s" % (int(b[0]), int(b[1]), int(b[2]), int(b[3]), f[3], f[5], f[6])
+    return "c10m %s %s %d %d %d %d %s %s %s" % (f[1], f[2], int(b[0]), int(b[1]), int(b[2]), int(b[3]), f[5], f[7], f[8])
 
 
 def run_part(chk, n=None):
@@ -93,7 +93,7 @@ def run_part(chk, n=None):
         b, with_, without = p
         # the generator's idea of the patterns agrees with the real regexp (keeps the class counts honest)
         f = c.split()
-        allow, deny = int(f[1]), int(f[2])
+        allow, deny = int(f[3]), int(f[4])
         if tags != ["corpus"]:
             want = (allow != 0, bool(allow) and W.pat_match(allow, g), deny != 0, bool(deny) and W.pat_match(deny, g))
             if want != b:
